@@ -832,7 +832,8 @@ where
 
                         // Join params with comma and space
                         let params_combined = if params_docs.is_empty() {
-                            allocator.nil()
+                            // keep the bars apart: `||` is the or-operator
+                            allocator.text(" ")
                         } else {
                             allocator.intersperse(params_docs.clone(), allocator.text(", "))
                         };
